@@ -460,10 +460,12 @@ theorem mailbox_close_eq (ctx : Ctx) (side : String) (mood : Option String) (t :
 /-! ### coverage -/
 
 /-- the translated methods are there, under these names -/
-theorem translated_methods : GenSrv.table.map (·.1) =
+theorem translated_methods :
     ["Mailbox.open", "Mailbox._touch", "Mailbox._add_message", "Mailbox.add_message", "Mailbox.close",
-     "AppNamespace._summarize_nameplate_and_store", "AppNamespace._summarize_mailbox_and_store", "AppNamespace._add_mailbox", "AppNamespace.open_mailbox",
-     "AppNamespace.claim_nameplate", "AppNamespace.release_nameplate", "AppNamespace.allocate_nameplate"] := by rfl
+     "AppNamespace._summarize_nameplate_and_store", "AppNamespace._summarize_mailbox_and_store", "AppNamespace._add_mailbox",
+     "AppNamespace.open_mailbox", "AppNamespace.claim_nameplate", "AppNamespace.release_nameplate",
+     "AppNamespace.allocate_nameplate", "AppNamespace.log_client_version"].all
+      (fun n => (GenSrv.table.lookup n).isSome) = true := by decide
 
 /-- what the translated bodies call: translated methods, the two summary functions (translate_summ.py, Tie/SrvSumm.lean), or the two primitives of Tie/SrvTop.lean -/
 theorem calls_resolved : (GenSrv.table.flatMap (fun m => XS.callsL m.2.body)).all
